@@ -144,7 +144,7 @@ def _serialize_recursive(
         if data is root:
             # The top-level class is not a member of the definitions.
             return {"$ref": "#"}
-        return {"$ref": f"#/definitions/{data.__name__}"}
+        return _definition_ref(data.__name__)
     if isinstance(data, Element):
         return _from_definitions(
             definitions,
@@ -163,6 +163,16 @@ def _serialize_recursive(
     return {key: recur(value) for key, value in data.items()}
 
 
+def _definition_ref(key: str) -> Dict[str, str]:
+    """Reference the member `key` of the top-level definitions.
+
+    The key is escaped as a JSON Pointer segment (`~`, `/`) within a URI
+    fragment (`%`), so that any member name resolves.
+    """
+    segment = key.replace("~", "~0").replace("/", "~1").replace("%", "%25")
+    return {"$ref": f"#/definitions/{segment}"}
+
+
 def _from_definitions(
     definitions: Optional[Dict[str, Element]],
     element: Element,
@@ -173,7 +183,7 @@ def _from_definitions(
         return default
     return next(
         (
-            {"$ref": f"#/definitions/{key}"}
+            _definition_ref(key)
             for key, definition in definitions.items()
             if definition == element
         ),
